@@ -172,6 +172,51 @@ pub fn run(out: &mut Out, tier: &str, seed: u64) {
             }
         }
     }
+    // ... and at every token boundary of a document, the end of the text included (behind the value, behind
+    // trailing blanks, in front of a closing bracket, a comma or a colon): whitespace is the same four bytes
+    // everywhere, also for the scanners of the tail
+    {
+        let templates: [&[&str]; 4] = [
+            &["{", "\"a\"", ":", "[", "1", ",", "true", "]", ",", "\"b\"", ":", "\"x\"", "}"],
+            &["[", "null", ",", "{", "}", ",", "-2.5e3", "]"],
+            &["\"s\""],
+            &["17"],
+        ];
+        for b in 0..=255u8 {
+            if matches!(b, b' ' | b'\t' | b'\r' | b'\n') || (!thorough && b % 3 != 0 && !(b < 0x21 || b == 0x7f || b == 0x85 || b == 0xa0)) {
+                continue;
+            }
+            for (ti, toks) in templates.iter().enumerate() {
+                for at in 0..=toks.len() {
+                    if !thorough && toks.len() > 1 && at + 2 < toks.len() && (at + ti + b as usize) % 3 != 0 {
+                        continue;
+                    }
+                    for (before, after) in [("", ""), (" ", "\n"), ("\t\r\n ", " ")] {
+                        if !thorough && before.len() == 1 && at != toks.len() {
+                            continue;
+                        }
+                        let mut d: Vec<u8> = Vec::new();
+                        for (i, t) in toks.iter().enumerate() {
+                            if i == at {
+                                d.extend_from_slice(before.as_bytes());
+                                d.push(b);
+                                d.extend_from_slice(after.as_bytes());
+                            }
+                            d.extend_from_slice(t.as_bytes());
+                        }
+                        if at == toks.len() {
+                            d.extend_from_slice(before.as_bytes());
+                            d.push(b);
+                            d.extend_from_slice(after.as_bytes());
+                        }
+                        out.count(if at == toks.len() { "stream:stray-byte-trailing" } else { "stream:stray-byte-boundary" });
+                        skip_entries(out, &d);
+                        full_entries(out, &d);
+                    }
+                }
+            }
+        }
+    }
     // nesting depth around the limits
     let lim = sonic_rs::verif_hooks::parser::MAX_NESTED_DEPTH;
     let slim = sonic_rs::verif_hooks::de::MAX_ALLOWED_DEPTH;
